@@ -13,7 +13,7 @@ import sys
 
 REPO = os.environ.get('VERIF_REPO', '/repo')
 ROOT = os.path.dirname(os.path.dirname(os.path.abspath(__file__)))
-BUILD = os.path.join(ROOT, 'build')
+BUILD = os.environ.get('VERIF_BUILD') or os.path.join(ROOT, 'build')
 
 CLANG = 'clang++-14'
 FLAGS = ['-fsyntax-only', '-std=c++14', '-fno-rtti', '-fno-exceptions', '-DNDEBUG',
